@@ -241,6 +241,8 @@ class PathModel(Model):
     path / string is that path; Path() is the empty relative path."""
 
     def call_global(self, st, name, node):
+        if name == "cast" and self.eng.imports.get("cast") == "typing.cast":
+            return self.eng.eval(st, node.args[1])
         if name == "Path" and self.eng.imports.get("Path", "").startswith(
                 "pathlib"):
             if not node.args:
@@ -1400,3 +1402,58 @@ class VersionModel(Model):
 
 
 ALL = ALL + [VersionModel]
+
+
+NAMESET_W = z3.Function("NAMESET_W", U, U, IntS)
+
+
+class SetModel(Model):
+    """{x.f for x in seq} over an opaque sequence: a set (characteristic
+    function) containing exactly the f-values of its elements; `in`, len()."""
+
+    def comprehension(self, st, node, kind):
+        from .libspec import ISEQ, ILEN
+        eng = self.eng
+        if kind != "set" or len(node.generators) != 1:
+            return None
+        g = node.generators[0]
+        if g.ifs or not isinstance(g.target, ast.Name):
+            return None
+        src = eng.eval(st, g.iter)
+        if not isinstance(src, VU):
+            return None
+        # element function evaluated symbolically on element k
+        k = z3.Const("k!set", IntS)
+        saved = st.locals
+        st.locals = dict(saved)
+        st.locals[g.target.id] = VU(ISEQ(src.t, k))
+        st.spec += 1
+        try:
+            body = eng.coerce(st, eng.eval(st, node.elt), "U")
+        finally:
+            st.spec -= 1
+            st.locals = saved
+        dom = st.fresh("set_dom", z3.ArraySort(U, BoolS))
+        x = z3.Const("x!set", U)
+        st.assume(z3.ForAll([k], z3.Implies(z3.And(0 <= k, k < ILEN(src.t)),
+                                            dom[body])))
+        w = NAMESET_W(src.t, x)
+        st.assume(z3.ForAll([x], z3.Implies(dom[x], z3.And(
+            0 <= w, w < ILEN(src.t),
+            z3.substitute(body, (k, w)) == x))))
+        v = VDict(dom, st.fresh("set_val", z3.ArraySort(U, U)), "U")
+        v.is_set = True
+        return v
+
+    def len_of(self, st, v, line):
+        if isinstance(v, VDict) and v.val is not None:
+            return VInt(KN(v.dom))
+        if isinstance(v, VDict):
+            return VInt(0)
+        return None
+
+    def for_source(self, st, node, srcv, K, stop):
+        return None
+
+
+ALL = ALL + [SetModel]
